@@ -22,6 +22,19 @@
 (*   emptyOk    TRUE | FALSE   an empty Newick source is an empty list     *)
 (*                             (shipped: FALSE, raises)                    *)
 (*   dbl        TRUE | FALSE   the writer doubles quotes (mutant switch)   *)
+(*   kwStop     FALSE | TRUE   TAXLABELS also ends at an unquoted END /    *)
+(*                             ENDBLOCK (mutant switch: a reader that       *)
+(*                             tolerates a missing ';')                     *)
+(*                                                                         *)
+(* Keywords are the token class "K_...": one ordinary character that forms *)
+(* a whole word (K_END, K_TREE, ...; K_end is END in another letter case). *)
+(* The writers emit them as the structure of a NEXUS file; a *label* may   *)
+(* consist of the same word, and must then never terminate a statement.    *)
+(*                                                                         *)
+(* o.acc[i] is the accession number of the i-th taxon of the namespace     *)
+(* (TaxonNamespace.accession_index + 1): it differs from i after taxa were *)
+(* removed, added later, or the namespace was reversed; TRANSLATE tokens   *)
+(* are accession numbers.                                                  *)
 (*                                                                         *)
 (* Trees are in the graph form of TreeBase with lab[x] a label (Seq of     *)
 (* characters, <<>> = none), len[x] a numeric literal ("n0", "n1", ...;    *)
@@ -29,13 +42,14 @@
 (***************************************************************************)
 EXTENDS NexusToken, TreeBase
 
-NwReference == [protect |-> "intended", quoteAware |-> TRUE, leadAware |-> TRUE, attr |-> "xml", missingLen |-> "root", emptyOk |-> TRUE, dbl |-> TRUE]
-NwShipped == [protect |-> "shipped", quoteAware |-> FALSE, leadAware |-> FALSE, attr |-> "json", missingLen |-> "all", emptyOk |-> FALSE, dbl |-> TRUE]
+NwReference == [protect |-> "intended", quoteAware |-> TRUE, leadAware |-> TRUE, attr |-> "xml", missingLen |-> "root", emptyOk |-> TRUE, dbl |-> TRUE, kwStop |-> FALSE]
+NwShipped == [protect |-> "shipped", quoteAware |-> FALSE, leadAware |-> FALSE, attr |-> "json", missingLen |-> "all", emptyOk |-> FALSE, dbl |-> TRUE, kwStop |-> FALSE]
 
 NwDigits == <<"1", "2", "3", "4", "5", "6", "7", "8", "9">>
 NwNum(k) == IF k \in 1..9 THEN <<NwDigits[k]>> ELSE <<"1", "1">>         \* str(k); the models stay below 10
 NwNumLits == {"n0", "n1", "n2", "n3"}
-NwFold(s) == [i \in 1..Len(s) |-> IF s[i] = "A" THEN "a" ELSE s[i]]      \* case folding
+NwFoldChar(c) == IF c = "A" THEN "a" ELSE IF c = "K_end" THEN "K_END" ELSE c
+NwFold(s) == [i \in 1..Len(s) |-> NwFoldChar(s[i])]                        \* case folding
 RECURSIVE NwJoin(_, _)
 NwJoin(qq, sep) == IF qq = <<>> THEN <<>> ELSE IF Len(qq) = 1 THEN qq[1] ELSE qq[1] \o sep \o NwJoin(Tail(qq), sep)
 NwProtect(d) == IF d.protect = "shipped" THEN TkShippedTreeProtect ELSE TkIntendedProtect
@@ -43,7 +57,7 @@ NwEsc(label, o, protect, d) == IF label = <<>> THEN <<>> ELSE TkEscapeD(label, o
 
 \* ------------------------------------------------------------ writer (NewickWriter)
 \* o: [uu, ps, pu, translate, suprooting, rrooting, weights, inttaxa]
-NwTaxTok(ns, o, tx) == IF o.translate THEN NwNum(tx) ELSE ns[tx]
+NwTaxTok(ns, o, tx) == IF o.translate THEN NwNum(o.acc[tx]) ELSE ns[tx]
 NwTag(g, ns, o, x) ==
     IF g.kids[x] = <<>> THEN (IF g.tx[x] # 0 THEN NwTaxTok(ns, o, g.tx[x]) ELSE <<>>)   \* leaf node labels are suppressed
     ELSE LET a == IF g.tx[x] # 0 THEN <<NwTaxTok(ns, o, g.tx[x])>> ELSE <<>>
@@ -222,9 +236,9 @@ NwReadNewick(chars, o, d) ==
 NwWriteNexus(inst, d) ==
     LET o == inst.o  ns == inst.ns
         lab(i) == NwEsc(ns[i], o, TkDefaultProtect, d)
-        taxl == <<"K_TAXLABELS", "nl">> \o Flatten([i \in 1..Len(ns) |-> lab(i) \o <<"nl">>]) \o <<"sp", "sc", "nl">>
+        taxl == <<"K_TAXLABELS", "nl">> \o Flatten([i \in 1..Len(ns) |-> lab(i) \o <<"nl">>]) \o <<"sp", "sc", "nl", "K_END", "sc", "nl">>
         trans == IF o.translate
-                   THEN <<"K_TRANSLATE", "nl">> \o NwJoin([i \in 1..Len(ns) |-> NwNum(i) \o <<"sp">> \o lab(i)], <<"cm", "nl">>) \o <<"nl", "sc", "nl">>
+                   THEN <<"K_TRANSLATE", "nl">> \o NwJoin([i \in 1..Len(ns) |-> NwNum(o.acc[i]) \o <<"sp">> \o lab(i)], <<"cm", "nl">>) \o <<"nl", "sc", "nl">>
                    ELSE <<>>
         stmts == Flatten([k \in 1..Len(inst.trees) |->
                     <<"K_TREE", "sp">> \o NwNum(k) \o <<"sp", "eq", "sp">> \o NwWriteTree(inst.trees[k], ns, o, d) \o <<"nl">>])
@@ -234,6 +248,8 @@ RECURSIVE NwTaxLabels(_, _)
 \* _parse_taxlabels_statement: labels until ';'
 NwTaxLabels(P, d) ==
     IF P.err # "" \/ NwIs(P, "sc", d) THEN P
+    ELSE IF d.kwStop /\ NwCur(P).k = "tok" /\ ~NwCur(P).q /\ NwFold(NwCur(P).s) \in {<<"K_END">>, <<"K_ENDBLOCK">>}
+      THEN NwAdvance(P, FALSE)                         \* (the mutant) the block is taken to end here: skip to its ';'
     ELSE IF NwCur(P).k = "none" THEN [P EXCEPT !.err = "HangOrEOF:TAXLABELS"]
     ELSE LET lab == NwCur(P).s
              known == \E i \in 1..Len(P.ns) : NwFold(P.ns[i]) = NwFold(lab)
@@ -273,7 +289,7 @@ NwReadNexus(chars, o, d) ==
     IF tk.err # "" THEN [err |-> tk.err, ns |-> <<>>, trees |-> <<>>]
     ELSE LET P0 == NwAdvance(NwP0(tk.out, <<>>, <<>>, TRUE), FALSE)                  \* K_TAXLABELS
              P1 == NwTaxLabels(NwAdvance(P0, FALSE), d)
-             P2 == NwAdvance(P1, FALSE)                                                 \* K_TREES
+             P2 == NwAdvance(NwAdvance(NwAdvance(P1, FALSE), FALSE), FALSE)           \* END ; of the taxa block, then K_TREES
              P3 == NwAdvance(NwAdvance(P2, FALSE), FALSE)                              \* ; and the first command of the block
              P4 == IF P3.err = "" /\ NwIsWord(P3, "K_TRANSLATE") THEN NwAdvance(NwTranslate(P3, d), FALSE) ELSE P3
              r == NwTreeStmts([P4 EXCEPT !.pend = <<>>], o, d, <<>>)
